@@ -93,6 +93,9 @@ type config struct {
 	plainMeta bool
 	withMeta  bool
 	human     bool
+	// probes: additional passwords to try (label, password); a label starting with "!" is always
+	// sent to the model as well (outside the R6 ration)
+	probes [][2]string
 }
 
 func (c config) String() string {
@@ -548,6 +551,85 @@ func candidates(e *common.Env, cfg config) []([2]string) {
 	return res
 }
 
+// ---- revision 6: a multi-byte character across the 127-byte truncation point ------------------
+
+// characters whose UTF-8 form SASLprep leaves unchanged, grouped by length; within a group some
+// share a prefix and some a suffix, so that probes can differ only before or only after the cut
+var straddlePool = map[int][]string{
+	2: {"\u00e9", "\u0129", "\u00e8", "\u00f1", "\u0169"},
+	3: {"\u20ac", "\u30ac", "\u21ac", "\u20ab", "\u20ad", "\u30ab"},
+	4: {"\U0001D11E", "\U0002011E", "\U0001D01E", "\U0001D11F", "\U0001D01F", "\U0002011F"},
+}
+
+// straddleConfigs: for a character of 2, 3 and 4 bytes and every offset off (the cut at byte 127
+// falls on byte off+1 of the character), documents whose user resp. owner password is
+// prefix(127-off ASCII bytes) + character + tail, with probes that differ from it
+//   - only in the character's bytes before the cut  -> differ after preparation, must be refused,
+//   - only in bytes after the cut (character suffix, tail) -> same 127-byte prefix, must open.
+// The expected outcome is computed by the oracle from the prepared forms (first 127 bytes), not from labels.
+func straddleConfigs(e *common.Env) []config {
+	var res []config
+	modelBudget := e.Pick(1, 4) // documents whose straddle probes also go to the model
+	for _, clen := range []int{2, 3, 4} {
+		pool := straddlePool[clen]
+		var stable []string
+		for _, c := range pool {
+			if p, ok := pdf.VerifSASLprep(c); ok && p == c && len(c) == clen {
+				stable = append(stable, c)
+			}
+		}
+		if len(stable) == 0 {
+			continue
+		}
+		base := stable[0]
+		for off := 1; off < clen; off++ {
+			prefix := asciiN(e, 127-off)
+			tail := asciiN(e, 1+e.Rand.IntN(4))
+			pw := prefix + base + tail
+			var probes [][2]string
+			forced := ""
+			for _, c := range stable[1:] {
+				switch {
+				case c[off:] == base[off:] && c[:off] != base[:off]:
+					probes = append(probes, [2]string{fmt.Sprintf("straddle%d.%d-before", clen, off), prefix + c + tail})
+				case c[:off] == base[:off]:
+					probes = append(probes, [2]string{fmt.Sprintf("straddle%d.%d-after", clen, off), prefix + c + tail})
+				default:
+					// differs on both sides of the cut: refused as well
+					probes = append(probes, [2]string{fmt.Sprintf("straddle%d.%d-both", clen, off), prefix + c + tail})
+				}
+			}
+			probes = append(probes, [2]string{fmt.Sprintf("straddle%d.%d-tail", clen, off), prefix + base + tail + "Z"})
+			probes = append(probes, [2]string{fmt.Sprintf("straddle%d.%d-cut", clen, off), prefix + base})
+			// a probe that is the prefix followed by something else entirely: refused
+			probes = append(probes, [2]string{fmt.Sprintf("straddle%d.%d-prefix", clen, off), prefix + "x" + tail})
+			_ = forced
+			asUser := config{version: pdf.V2_0, user: pw, owner: "own", perm: pdf.PermCopy | pdf.PermForms, probes: probes}
+			asOwner := config{version: pdf.V2_0, user: "u", owner: pw, perm: pdf.PermPrint, probes: probes}
+			// the model too: the owner variant costs fewest hashes (the cheap empty attempt fails, then
+			// owner validation decides); one refused and one accepted probe
+			if modelBudget > 0 && clen == 3 && off == 2 || e.Thorough && modelBudget > 0 {
+				modelBudget--
+				var forcedProbes [][2]string
+				seenB, seenA := false, false
+				for _, pr := range probes {
+					if strings.HasSuffix(pr[0], "-before") && !seenB {
+						pr[0] = "!" + pr[0]
+						seenB = true
+					} else if strings.HasSuffix(pr[0], "-after") && !seenA {
+						pr[0] = "!" + pr[0]
+						seenA = true
+					}
+					forcedProbes = append(forcedProbes, pr)
+				}
+				asOwner.probes = forcedProbes
+			}
+			res = append(res, asUser, asOwner)
+		}
+	}
+	return res
+}
+
 // ---- the checks ------------------------------------------------------------------------
 
 type run struct {
@@ -637,7 +719,7 @@ func (rn *run) checkDocument(cfg config) {
 
 	var items []rawItem
 	itemsDone := false
-	for _, c := range candidates(e, cfg) {
+	for _, c := range append(candidates(e, cfg), cfg.probes...) {
 		label, pw := c[0], c[1]
 		pp, ok := prepared(R, pw)
 		key := fmt.Sprintf("R%d|%s|%s|%s|%d|%v|%v", R, cfg.version, label, clip(pw), cfg.perm, cfg.plainMeta, cfg.human)
@@ -668,6 +750,9 @@ func (rn *run) checkDocument(cfg config) {
 			wantPerm = pdf.PermAll
 		}
 		class := fmt.Sprintf("R%d/%s", R, map[bool]string{true: "opens", false: "refused"}[wantOK])
+		if i := strings.Index(label, "straddle"); i >= 0 {
+			class += "/" + label[i:]
+		}
 		e.Count(true, key, class)
 		e.Sample(6, map[string]any{"config": cfg.String(), "password": clip(pw), "label": label, "expected_open": wantOK})
 		caseInfo := map[string]any{"config": cfg.String(), "password": pw, "label": label, "R": R}
@@ -696,7 +781,7 @@ func (rn *run) checkDocument(cfg config) {
 		if !e.Thorough && R <= 4 && !(label == "user" || label == "owner" || label == "none" || label == "wrong") && e.Rand.IntN(3) != 0 {
 			continue
 		}
-		if R >= 5 {
+		if R >= 5 && !strings.HasPrefix(label, "!") {
 			if rn.r6model <= 0 {
 				continue
 			}
@@ -1063,7 +1148,7 @@ func main() {
 	first := config{version: pdf.V2_0, user: "usér", owner: "ownér-pw", perm: pdf.PermCopy | pdf.PermPrint, withMeta: true, plainMeta: true}
 	// an R6 file with an empty user password, plaintext metadata, human-readable: used for the /EncryptMetadata tampering
 	second := config{version: pdf.V2_0, user: "", owner: "owner", perm: pdf.PermCopy, withMeta: true, plainMeta: true, human: true}
-	cfgs = append([]config{first, second}, cfgs...)
+	cfgs = append(append([]config{first, second}, straddleConfigs(e)...), cfgs...)
 	for _, cfg := range cfgs {
 		if cfg.version < pdf.V1_4 {
 			cfg.withMeta = false // XMP metadata streams need PDF 1.4
